@@ -27,8 +27,8 @@ TIERS = {
     "thorough": {"runs": 3500, "wall_cap": 3300, "reexecute": 60},
 }
 FAILS = ["syntax", "type", "runtime", "runtime_opaque", "convert", "missing_import", "post_out", "lazy_missing_import", "lazy_broken_import",
-         "strict_only_field", "strict_only_env", "convert_late_xml", "convert_late_yamlmulti", "div_zero", "mod_zero", "format_too_few_args", "type_static_only"]
-SPELL = ["plain", "dot", "dotdot", "redundant", "abs"]
+         "strict_only_field", "strict_only_env", "convert_late_xml", "convert_late_yamlmulti", "div_zero", "mod_zero", "format_too_few_args", "type_static_only", "deep_recursion_fails"]
+SPELL = ["plain", "dot", "dotdot", "redundant", "abs", "backslash"]
 
 
 def generate(rng, tier, idx):
@@ -53,7 +53,9 @@ def generate(rng, tier, idx):
              # the project's one data file, included as text or decoded
              "include": rng.weighted([(None, 7), ("str", 1), ("json", 1), ("yaml", 1)]),
              # an assert statement: evaluated and recorded, but `ucg build` does not judge by it
-             "asserts": rng.weighted([(None, 8), ("true", 1), ("false", 2)])}
+             "asserts": rng.weighted([(None, 8), ("true", 1), ("false", 2)]),
+             # a healthy but deep recursion through module instantiation
+             "deep": rng.chance(10)}
         if role in ("entry", "dual"):
             f["out"] = rng.weighted([("json", 4), ("yaml", 3), ("toml", 2), ("env", 1), ("flags", 1)])
         if role == "failing":
@@ -173,6 +175,8 @@ def spelled(world, frm, to, how, root_abs):
         return "././" + rel.replace("/", "/./")
     if how == "abs":
         return root_abs + "/" + to["path"]
+    if how == "backslash":
+        return rel.replace("/", "\\\\")      # Windows-style separators, escaped for the UCG string literal
     raise ValueError(how)
 
 
@@ -203,6 +207,9 @@ def render_file(world, i, root_abs):
     L.append("let deps = " + (" + ".join(deps) if deps else "[]") + ";")
     if f.get("asserts"):
         L.append('assert {ok = %s, desc = "assert-%s"};' % (f["asserts"], f["uid"]))
+    if f.get("deep"):
+        L.append("let climb = module {n = 0} => (r) { let r = select (mod.n > 0, 0) => { true = mod.this{n = mod.n - 1} + 1 }; };")
+        L.append("let height = climb{n = 250};")
     inc = f.get("include")
     if inc:
         rel = os.path.relpath("shared_data.json", os.path.dirname(f["path"]) or ".")
@@ -224,6 +231,9 @@ def render_file(world, i, root_abs):
         L.append('let broken = idf(1) + idf("a");')
     elif fail == "missing_import":
         L.append('let broken = import "./does-not-exist-%s.ucg";' % f["uid"])
+    elif fail == "deep_recursion_fails":
+        L.append("let countdown = module {n = 0} => (r) { let r = select (mod.n > 0) => { true = mod.this{n = mod.n - 1} + 1 }; };")
+        L.append("let broken = countdown{n = 300};")
     elif fail == "type_static_only":
         # only the static checker objects: the VM would concatenate the two lists without complaint
         L.append('let broken = [1, 2] + ["a"];')
